@@ -181,7 +181,7 @@ func (q Seq) Expand() []bool {
 		for i := range out {
 			out[i] = math.Cos(2*math.Pi*float64(q.A)*float64(i)/float64(n)+q.F) >= 0
 		}
-	case "blocklr": // blocks of length A; each block's longest run of ones is exactly L, L drawn in [B-1, B+Pos[0]+1]; Pos[1]=1 complements
+	case "blocklr": // blocks of length A; each block's longest run of ones is exactly L, L drawn in [B-1, B+Pos[0]+1]; Pos[1]=1 complements; Pos[2] placement
 		m, lo, K := q.A, q.B, q.Pos[0]
 		for s := 0; s < n; s += m {
 			e := min(s+m, n)
@@ -203,6 +203,15 @@ func (q Seq) Expand() []bool {
 			}
 			if L > 0 {
 				p := r.Intn(len(blk) - L + 1)
+				if len(q.Pos) > 2 { // placement of the longest run: 1 at the block's first bit, 2 at its last bit, 3 alternating last / first (runs that touch across the block boundary)
+					bi := s / m
+					switch {
+					case q.Pos[2] == 1, q.Pos[2] == 3 && bi%2 == 1:
+						p = 0
+					case q.Pos[2] == 2, q.Pos[2] == 3 && bi%2 == 0:
+						p = len(blk) - L
+					}
+				}
 				for i := p; i < p+L; i++ {
 					blk[i] = true
 				}
